@@ -131,6 +131,7 @@ func partRoller(t *testing.T, res *hx.Result) {
 	cases := hx.LoadCases[rcase](t, "LogRoller")
 	rnd := hx.Rand()
 	flipped := false
+	perClause := map[string]int{}
 	for n, c := range cases {
 		nontrivial := ""
 		if len(c.Lines) > 0 {
@@ -151,10 +152,17 @@ func partRoller(t *testing.T, res *hx.Result) {
 		}
 		// once more, fresh controller
 		if clause2, what2 := evalRoller(c, scratch, n+len(cases), clause == "writer" || clause == "effective-limit-positive"); clause2 == clause {
-			res.Add(hx.Mismatch{Key: "C20/logroller/" + clause + "/" + c.key(), What: what, Case: c, Observed: what2})
+			// one cause shows in many blocks: a few instances are reported, the rest counted
+			perClause[clause]++
+			if perClause[clause] <= 6 {
+				res.Add(hx.Mismatch{Key: "C20/logroller/" + clause + "/" + c.key(), What: what, Case: c, Observed: what2})
+			}
 		}
 	}
 	res.AddExtra("logroller_cases", len(cases))
+	if len(perClause) > 0 {
+		res.AddExtra("logroller_mismatching_cases", perClause)
+	}
 	if hx.SelfTest() && res.MismatchCount() == 0 {
 		res.Infra = "selftest: a corrupted roller expectation went unnoticed"
 	}
